@@ -266,6 +266,64 @@ class SimFS:
         self.events.append(("mkdir", path))
 
 
+class RealFS:
+    """Same interface, backed by a real scratch directory: '/simfs/x' is mapped to
+    '<root>/x' and opened with the real open().  Used only by the stub-fidelity
+    self-test (no event trace, no fault injection)."""
+
+    def __init__(self, root):
+        self.root = root
+        self.events = []
+        self.open_handles = 0
+        self.fault = None
+        self.fault_counts = {}
+        self.opens = 0
+        self.dirs = set()
+
+    def _map(self, path):
+        return os.path.join(self.root, os.fspath(path)[len(PREFIX):])
+
+    @property
+    def files(self):
+        out = {}
+        for dp, _, fns in os.walk(self.root):
+            for fn in fns:
+                full = os.path.join(dp, fn)
+                with _real_open(full, "rb") as f:
+                    out[PREFIX + os.path.relpath(full, self.root)] = bytearray(f.read())
+        return out
+
+    def put(self, path, data):
+        with _real_open(self._map(path), "wb") as f:
+            f.write(data)
+
+    def get(self, path):
+        try:
+            with _real_open(self._map(path), "rb") as f:
+                return f.read()
+        except FileNotFoundError:
+            return None
+
+    def mark(self):
+        return 0
+
+    def events_since(self, mark, path=None):
+        return []
+
+    def fired(self, kind):
+        pass
+
+    def open(self, file, *a, **k):
+        self.opens += 1
+        return _real_open(self._map(file), *a, **k)
+
+    def exists(self, path):
+        return _real_exists(self._map(path))
+
+    def mkdir(self, path, *a, **k):
+        return _real_mkdir(self._map(path), *a, **k)
+
+
 def _is_sim(path):
     try:
         p = os.fspath(path)
